@@ -304,6 +304,12 @@ class World:
     # ---- interpreter
     def apply(self, step):
         self.interfere()
+        # a process-wide numpy error state is ordinary user configuration: every third step runs under
+        # np.errstate(all="raise") (the unchanged library is quiet under it)
+        with np.errstate(all="raise" if self.nstep % 3 == 0 else "warn"):
+            return self._apply(step)
+
+    def _apply(self, step):
         op = step["op"]
         i = step.get("i", 0)
         sk = self.sk[i]
